@@ -206,8 +206,86 @@ func checkC15(c *Ctx) {
 	busy := map[*ssa.Function]bool{}
 	// entryLocks: locks every in-module caller holds at the call, expressed on the callee's parameters
 	// (unexported functions only: exported ones can be called from anywhere).
+	// deferEntry: a closure that its parent defers runs when the parent leaves - normally or by a panic - i.e. at any
+	// point after the defer statement, and before the deferred calls registered earlier (LIFO). It holds every lock
+	// held at all those points, except the ones that a deferred Unlock registered after it releases first.
+	deferEntry := func(f *ssa.Function) an.LockSet {
+		g := f.Parent()
+		if g == nil || busy[f] {
+			return nil
+		}
+		var di *ssa.Defer
+		n := 0
+		uses := 0
+		for _, ci := range an.Calls(g) {
+			if mc, ok := ci.Common().Value.(*ssa.MakeClosure); ok && mc.Fn == ssa.Value(f) {
+				uses++
+				if d, isD := ci.(*ssa.Defer); isD {
+					di = d
+					n++
+				}
+			}
+		}
+		if mcs := an.ClosureSite(f); mcs == nil || mcs.Referrers() == nil || len(*mcs.Referrers()) != 1 {
+			return nil // the closure value is used for something else as well
+		}
+		if n != 1 || uses != 1 {
+			return nil
+		}
+		busy[f] = true
+		defer delete(busy, f)
+		held := ls(g)
+		var acc an.LockSet
+		seen := map[*ssa.BasicBlock]bool{}
+		var laterUnlock []string
+		var visit func(b *ssa.BasicBlock, from int)
+		visit = func(b *ssa.BasicBlock, from int) {
+			for i := from; i < len(b.Instrs); i++ {
+				x := b.Instrs[i]
+				if d, isD := x.(*ssa.Defer); isD {
+					if kind, m := an.LockOp(d.Common()); kind == "Unlock" {
+						laterUnlock = append(laterUnlock, an.MutexPath(m))
+					} else if kind == "RUnlock" {
+						laterUnlock = append(laterUnlock, an.MutexPath(m)+"(r)")
+					}
+				}
+				switch x.(type) {
+				case ssa.CallInstruction, *ssa.Return, *ssa.RunDefers, *ssa.Panic, *ssa.UnOp, *ssa.Store, *ssa.IndexAddr, *ssa.Index, *ssa.TypeAssert, *ssa.BinOp, *ssa.Slice, *ssa.Lookup, *ssa.FieldAddr:
+					// a point at which the function may leave (return or run-time panic)
+					h := held[x]
+					if acc == nil {
+						acc = an.LockSet{}
+						for k := range h {
+							acc[k] = true
+						}
+					} else {
+						for k := range acc {
+							if !h[k] {
+								delete(acc, k)
+							}
+						}
+					}
+				}
+			}
+			for _, sb := range b.Succs {
+				if !seen[sb] {
+					seen[sb] = true
+					visit(sb, 0)
+				}
+			}
+		}
+		pt := an.After(di)
+		visit(pt.B, pt.I)
+		for _, k := range laterUnlock {
+			delete(acc, k)
+		}
+		return acc
+	}
 	entryLocks := func(f *ssa.Function) an.LockSet {
-		if f.Parent() != nil || f.Object() == nil || f.Object().Exported() || busy[f] {
+		if f.Parent() != nil {
+			return deferEntry(f)
+		}
+		if f.Object() == nil || f.Object().Exported() || busy[f] {
 			return nil
 		}
 		busy[f] = true
@@ -253,7 +331,6 @@ func checkC15(c *Ctx) {
 		if s, ok := locksets[f]; ok {
 			return s
 		}
-		// deferred closures run with the locks held at function exit: approximated by analysing them with no lock held
 		s := an.LockSets(f, entryLocks(f))
 		locksets[f] = s
 		return s
